@@ -289,9 +289,17 @@ def run_cases(binary, cases, timeout=600, env=None):
     e.setdefault("UBSAN_OPTIONS", "print_stacktrace=1")
     if env:
         e.update(env)
+    pre = None
+    if os.path.basename(binary) == "driver":
+        # the extracted model recurses over lists structurally: inputs of a megabyte need a deeper stack than the default 8 MiB
+        def pre():
+            import resource
+            soft, hard = resource.getrlimit(resource.RLIMIT_STACK)
+            want = 4 << 30
+            resource.setrlimit(resource.RLIMIT_STACK, (want if hard == resource.RLIM_INFINITY else min(want, hard), hard))
     try:
         p = subprocess.run([binary], input=inp, stdout=subprocess.PIPE, stderr=subprocess.PIPE, timeout=timeout,
-                           text=True, errors="replace", env=e)
+                           text=True, errors="replace", env=e, preexec_fn=pre)
         lines = p.stdout.split("\n")
         if lines and lines[-1] == "":
             lines.pop()
